@@ -146,4 +146,56 @@ theorem request_blocks_unfixed :
       isReturned s'.rpc = false ∧ stuck false s' = true ∧ s'.closeClosed = false := by
   refine ⟨_, rfl, ?_, ?_, ?_⟩ <;> decide
 
+/-- What the manager's books say about this request, relative to the state `ms0` at entry. -/
+def Acc (ms0 : State) (s : PState) : Prop :=
+  match s.rpc with
+  | .returned true => acquiredNow ms0 s.r = true ∧ handleRequest ms0 s.r true = .ok s.ms
+  | .returned false => s.ms = ms0 ∨ (acquiredNow ms0 s.r = false ∧ handleRequest ms0 s.r true = .ok s.ms)
+  | _ => s.ms = ms0
+
+theorem acc_step (fixed : Bool) (ms0 : State) (s s' : PState) (a : Act) (h : Acc ms0 s)
+    (hs : pstep fixed s a = some s') : Acc ms0 s' ∧ s'.r = s.r := by
+  obtain ⟨rpc, mpc, r, ms, cc, cl, dc, dr⟩ := s
+  cases a <;> simp only [pstep] at hs
+  case answer =>
+    split at hs
+    · rename_i hc
+      obtain ⟨ms', hms⟩ := handleRequest_no_panic ms r true
+      simp only [hms] at hs
+      cases hs
+      obtain ⟨h1, h2⟩ := hc
+      subst h1 h2
+      simp only [Acc] at h
+      subst h
+      refine ⟨?_, rfl⟩
+      cases hb : acquiredNow ms r <;> simp [Acc, hb, hms]
+    · cases hs
+  all_goals
+    split at hs <;>
+      first
+      | (cases hs; done)
+      | (cases hs; refine ⟨?_, rfl⟩; cases rpc <;> simp_all [Acc])
+
+/-- **request_accounting.** Whatever the schedule, the caller's result and the manager's books
+agree: `Request` returns `true` only if the manager subtracted exactly this amount (the grant of
+`handleRequest`), and if it returns `false` the manager either did nothing for it or queued it —
+a reservation is never made without the caller learning about it. -/
+theorem request_accounting (fixed : Bool) (ms0 : State) (r : Req) (cc cl : Bool) (acts : List Act) (s' : PState)
+    (h : prun fixed (start ms0 r cc cl) acts = some s') : Acc ms0 s' ∧ s'.r = r := by
+  have key : ∀ (acts : List Act) (s s' : PState), Acc ms0 s → prun fixed s acts = some s' → Acc ms0 s' ∧ s'.r = s.r := by
+    intro acts
+    induction acts with
+    | nil => intro s s' ha hr; simp [prun] at hr; subst hr; exact ⟨ha, rfl⟩
+    | cons a as ih =>
+      intro s s' ha hr
+      simp only [prun] at hr
+      cases hs : pstep fixed s a with
+      | none => rw [hs] at hr; cases hr
+      | some s1 =>
+        rw [hs] at hr
+        obtain ⟨ha1, hr1⟩ := acc_step fixed ms0 s s1 a ha hs
+        obtain ⟨ha2, hr2⟩ := ih s1 s' ha1 hr
+        exact ⟨ha2, hr2.trans hr1⟩
+  exact key acts _ s' (by simp [Acc, start]) h
+
 end Rain.Props.C08RM
